@@ -21,6 +21,13 @@ Sequence-style apply functions (op 'seqapply': len(), indexing, slicing, reverse
 argument) and exact means of big-int / Fraction / Decimal / float columns (op 'exactmean') are run for
 window() as in C12: every row gets what the function / Python's sum/len gives on the plain list of its
 group's values, and window agrees with aggregate() called with the same arguments.
+Key columns reproduced UNCHANGED, read strictly: every cell of the first nk result columns is the very same
+value as the input key cell (type and repr: True is not 1 is not 1.0, -0.0 is not 0.0) and each key column
+keeps the dtype of the input key column.  Blocks 'eqkeys-*' (relational_common) enumerate partitions whose
+key cells are equal (one partition) but distinguishable - signed zeros, bool / int / float, 2 / 2.0 - in one
+and two key columns, None keys included; failure keys '<site>:key-columns:cell-changed' / ':dtype-changed'.
+Apply functions that modify their argument (op 'mutapply', see C12 / relational_common.mut_apply_cases): every
+output column of one window() call holds what its function gives on a FRESH plain list of the row's group.
 """
 from relational_common import *  # noqa
 
@@ -34,6 +41,7 @@ def cases(tier, seed):
     yield from precision_cases(tier)
     yield from seq_apply_cases(tier, OP)
     yield from exactmean_cases(tier)
+    yield from mut_apply_cases(tier, OP)
 
 
 def descr_of(case):
@@ -178,6 +186,8 @@ def evaluate(case):
         return eval_exactmean(case)
     if case['op'] == 'precision':
         return eval_precision(case)
+    if case['op'] == 'mutapply':
+        return eval_mutapply(PID, case)
     descr = descr_of(case)
     try:
         s = AggSetup(case)
@@ -187,11 +197,15 @@ def evaluate(case):
     fails = []
     site = agg_site(OP, case)
     try:
+        key_sigs = [schema_sig(c) for c in input_key_columns(s)]
+    except Exception:
+        key_sigs = None
+    try:
         res = s.T.window(s.over, **s.kwargs)
     except Exception as e:
         return [Fail(f'{PID}:{site}:raises:{type(e).__name__}', f'{descr}: raised {e!r}', None, repr(e), f'{PID}:{OP}:post')]
     try:
-        _check(case, s, res, fails, descr, site)
+        _check(case, s, res, fails, descr, site, key_sigs)
     except Exception as e:      # malformed result -> failure, never a harness crash
         fails.append(Fail(f'{PID}:{site}:malformed-result', f'{descr}: result could not be read: {e!r}', None, repr(e)))
     if s.snapshot() != before:
@@ -199,7 +213,7 @@ def evaluate(case):
     return fails
 
 
-def _check(case, s, res, fails, descr, OP=OP):
+def _check(case, s, res, fails, descr, OP=OP, key_sigs=None):
     nk, n = s.nk, len(s.keys)
     m = truthful(res)
     if m:
@@ -214,6 +228,13 @@ def _check(case, s, res, fails, descr, OP=OP):
                           [len(c._underlying) for c in res.cols()], f'{PID}:{OP}:expand:post'))
         return
     got_keys = [tuple(list(c._underlying)[i] for c in res.cols()[:nk]) for i in range(n)]
+    # "reproduces the partition key columns unchanged", read strictly (cell identity, column dtype)
+    changed = key_columns_changed(res, key_sigs, s.keys) if key_sigs is not None and len(key_sigs) == nk else None
+    if changed and (changed[0] == 'dtype-changed' or all(a == b for a, b in zip(got_keys, s.keys))):
+        # every row still shows a key EQUAL to its own, but not the same cell / not the same column dtype
+        fails.append(Fail(f'{PID}:{OP}:key-columns:{changed[0]}', f'{descr}: the first {nk} columns are not the input key columns unchanged '
+                          f'({changed[0]}: input {changed[1]!r}, result {changed[2]!r})', changed[1], changed[2], f'{PID}:{OP}:expand:post'))
+        return
     if not rows_same(got_keys, s.keys):
         cls = 'row-order' if Counter(map(rkey, got_keys)) == Counter(map(rkey, s.keys)) else 'key-columns'
         fails.append(Fail(f'{PID}:{OP}:{cls}', f'{descr}: the first {nk} columns are not the input key columns, row by row',
@@ -279,11 +300,13 @@ if __name__ == '__main__':
               'aggregate / apply column equals (a) the hand oracle expanded to rows and (b) aggregate(...) with the same arguments '
               'looked up through each row\'s key tuple; input unchanged; plus call histories on one table object and stdev of '
               'large-offset values vs an exact Fraction reference (relative 1e-9), as in C12; plus apply functions that use their argument as a '
-              'list and means of big-int / Fraction / Decimal / float columns (vs Python sum/len in the element type and vs aggregate). distinct = distinct (nk, mode, rows, groups, interleaved, '
+              'list and means of big-int / Fraction / Decimal / float columns (vs Python sum/len in the element type and vs aggregate); key columns compared '
+              'cell by cell at type + repr level and by dtype, over partitions whose key cells are equal but distinguishable (0.0/-0.0, True/1/1.0, 2/2.0); '
+              'apply functions that modify their argument, each vs the function on a fresh list. distinct = distinct (nk, mode, rows, groups, interleaved, '
               'all-None group, None key, aggs, apply) signatures',
          bound=lambda tier: dict(agg_bound(tier, heavy=True),
                                  repeat_variants=['ext', 'view-name'] if tier == 'quick' else REPEAT_VARIANTS,
                                  precision_families=[f for f, _ in PRECISION_FAMILIES], precision_len=[2, 4 if tier == 'quick' else 5],
                                  seq_apply_functions=SEQ_APPLY_NAMES, exact_mean_families={f: [repr(x) for x in p] for f, p in EXACT_MEAN_FAMILIES},
-                                 exact_mean_len=[1, 3 if tier == 'quick' else 4]),
+                                 exact_mean_len=[1, 3 if tier == 'quick' else 4], mutating_apply_functions=MUT_APPLY_NAMES),
          nontrivial=nontrivial)
